@@ -60,6 +60,15 @@ def stores_of_node(n):
     k = n.get("kind")
     i = kids(n)
     if k == "BinaryOperator" and n.get("opcode") == "=":
+        # x = x + e  /  x = e + x  /  x = x - e   are the compound updates  x += e  /  x -= e
+        r = strip(i[1], casts=True)
+        if r.get("kind") == "BinaryOperator" and r.get("opcode") in ("+", "-") and subscript(i[0]) is not None:
+            a, b = kids(r)
+            ta = _plain_text(i[0])
+            if _plain_text(a) == ta:
+                return [Store(n, i[0], r["opcode"] + "=", b, "assign")]
+            if r["opcode"] == "+" and _plain_text(b) == ta:
+                return [Store(n, i[0], "+=", a, "assign")]
         return [Store(n, i[0], "=", i[1], "assign")]
     if k == "CompoundAssignOperator":
         return [Store(n, i[0], n["opcode"], i[1], "assign")]
@@ -85,6 +94,15 @@ def stores_of_node(n):
         if obj is not None and m in MUTATING and strip(obj).get("kind") != "CXXThisExpr":
             return [Store(n, obj, m, i[1] if len(i) > 1 else None, "method")]
     return []
+
+
+def _plain_text(n):
+    """structural text of an lvalue (before `canon` exists): subscripts by polynomial index"""
+    n = strip(n, casts=True)
+    sub = subscript(n)
+    if sub is not None:
+        return _plain_text(sub[0]) + "[" + repr(poly(sub[1])) + "]"
+    return text(n)
 
 
 def _nonconst_ref_arg(a):
@@ -220,10 +238,22 @@ def poly(n, env=None):
         return -poly(kids(n)[0], env)
     if k == "UnaryOperator" and n["opcode"] == "+":
         return poly(kids(n)[0], env)
+    if k == "DeclRefExpr":
+        did = n.get("referencedDecl", {}).get("id")
+        init = cxfe.INLINE.get(did)
+        if init is not None and did not in _inlining:
+            _inlining.add(did)
+            try:
+                return poly(init, env)
+            finally:
+                _inlining.discard(did)
     nm = atom_name(n)
     if env and nm in env:
         return env[nm]
     return Poly.sym(nm)
+
+
+_inlining = set()
 
 
 # ------------------------------------------------------------------------------------------------ facts client
@@ -357,6 +387,36 @@ def canon(n):
     if k == "CXXBoolLiteralExpr":
         return "true" if n.get("value") else "false"
     return text(n)
+
+
+def canon_inl(n, fn_body, _depth=0):
+    """canon() with single-assignment locals replaced by their (call-free) initialisers"""
+    defs, assigned = {}, set()
+    for x in walk(fn_body):
+        if x.get("kind") == "VarDecl" and kids(x):
+            defs[x.get("id")] = kids(x)[-1]
+        for s in stores_of_node(x):
+            if s.base and s.base[0] == "var":
+                assigned.add(s.base[2])
+
+    def rec(e, depth):
+        e = strip(e, casts=True)
+        if e.get("kind") == "DeclRefExpr":
+            did = e.get("referencedDecl", {}).get("id")
+            d = defs.get(did)
+            if d is not None and did not in assigned and depth < 6 and \
+                    not any(y.get("kind") in ("CallExpr", "CXXMemberCallExpr") for y in walk(d)):
+                return rec(d, depth + 1)
+            return canon(e)
+        k = e.get("kind")
+        i = kids(e)
+        sub = subscript(e)
+        if sub is not None:
+            return rec(sub[0], depth) + "[" + repr(poly(sub[1])) + "]"
+        if k in ("BinaryOperator", "CompoundAssignOperator"):
+            return "(" + rec(i[0], depth) + " " + e["opcode"] + " " + rec(i[1], depth) + ")"
+        return canon(e)
+    return rec(n, 0)
 
 
 def cfacts(cond, positive):
